@@ -1,0 +1,22 @@
+//go:build verif
+
+package cache
+
+// VerifEach calls f for every cache entry that holds an object.
+func (c *Cache) VerifEach(f func(id uint64, obj interface{})) {
+	c.mu.Lock()
+	for id, e := range c.entries {
+		if e.slot.Obj != nil {
+			f(id, e.slot.Obj)
+		}
+	}
+	c.mu.Unlock()
+}
+
+// VerifLen returns the number of slots in use.
+func (c *Cache) VerifLen() uint64 {
+	c.mu.Lock()
+	n := c.cnt
+	c.mu.Unlock()
+	return n
+}
